@@ -39,6 +39,8 @@ def common(tier):
         J('stalevote5', 'stale_vote5', dict(n=5, fuse=True), dict(), max_states=250000),
         J('reelected5:H2', 'reelected5', dict(n=5, fuse=True), dict(H=2), max_states=250000),
         J('stalereset5-b24:H1', 'stale_reset5', dict(n=5, batch_bytes=SMALLB, fuse=True), dict(H=1), max_states=250000),
+        J('splitvote5:E1', 'split_vote5', dict(n=5), dict(E=1), extra_monitors=(('mc.monitors', 'ObserverMonitor', {}),)),
+        J('lateack-resend3-b24:H2', 'lateack_resend', dict(n=3, batch_bytes=SMALLB), dict(H=2)),
         J('candidates5x2', 'candidates', dict(n=5, fuse=True), dict()),
         J('pipeline3:H2R1K1', 'reconnect_pipeline', dict(n=3), dict(H=2, R=1, K=1), dict(unrep=4)),
         J('steady3-k3:H1S1K1X1', 'steady', dict(n=3), dict(H=1, S=1, K=1, X=1), dict(k=3)),
